@@ -316,14 +316,14 @@ PLAN = {
     # pid: (MC config for the design-level check, EMIT config for replay (quick, thorough), random runs (quick, thorough),
     #       allowed features of random instances, op kinds, companion runs)
     'C01': dict(mc='LatticeMC_C01', emit='LatticeMC_C01e', rnd=(1600, 12000), allow=('nodes', 'cuts', 'linked'), kinds=(), aux=()),
-    'C02': dict(mc='LatticeMC_C02', emit='LatticeMC_ALLe', rnd=(400, 6000), allow=('ne', 'W', 'nodes', 'cuts', 'linked', 'skip', 'second'), kinds=('extend', 'widen'), aux=()),
+    'C02': dict(mc='LatticeMC_C02', emit='LatticeMC_ALLe', rnd=(700, 8000), allow=('ne', 'W', 'nodes', 'cuts', 'linked', 'skip', 'second'), kinds=('extend', 'widen'), aux=()),
     'C03': dict(mc='LatticeMC_C03', emit='LatticeMC_ALLe', rnd=(400, 6000), allow=('ne', 'W', 'nodes', 'cuts', 'linked', 'skip', 'second'), kinds=('extend', 'widen'), aux=()),
     'C04': dict(mc='LatticeMC_C04', emit='LatticeMC_ALLe', rnd=(400, 6000), allow=('ne', 'W', 'nodes', 'cuts', 'linked', 'skip', 'second'), kinds=('extend', 'widen'), aux=()),
     'C05': dict(mc='LatticeMC_C05', emit='LatticeMC_ALLe', rnd=(400, 6000), allow=('ne', 'W', 'nodes', 'cuts', 'linked', 'skip', 'second'), kinds=('extend', 'widen'), aux=()),
     'C06': dict(mc='LatticeMC_C06', emit='LatticeMC_C06e', rnd=(1800, 12000), allow=('ne', 'nodes', 'cuts', 'linked', 'skip'), kinds=(), aux=('C06',)),
     'C07': dict(mc='LatticeMC_C07', emit='LatticeMC_C07e', rnd=(400, 6000), allow=('ne', 'W', 'nodes', 'cuts', 'linked', 'skip', 'second'), kinds=('widen',), aux=('C07',)),
     'C08': dict(mc='LatticeMC_C08', emit='LatticeMC_C08e', rnd=(400, 6000), allow=('ne', 'W', 'nodes', 'cuts', 'linked', 'skip', 'second'), kinds=('extend',), aux=('C08',)),
-    'C09': dict(mc='LatticeMC_C09', emit='LatticeMC_ALLe', rnd=(400, 6000), allow=('ne', 'W', 'nodes', 'cuts', 'linked', 'skip', 'second'), kinds=('extend', 'widen'), aux=()),
+    'C09': dict(mc='LatticeMC_C09', emit='LatticeMC_ALLe', rnd=(1500, 10000), allow=('ne', 'W', 'nodes', 'cuts', 'linked', 'skip', 'second'), kinds=('extend', 'widen'), aux=()),
 }
 
 
@@ -389,11 +389,13 @@ def run(chk):
                     inst.lN[(st, t)] = -rng.choice([0, 0, 1, 2])
                     inst.dN[(st, t)] = rng.choice([0, 1, 1, 2])
             ops = rand_ops(rng, inst.T, cf, plan['kinds'])
-        if 'widen' in plan['kinds'] and 'W' in plan['allow'] and rng.random() < 0.35:
+        if 'widen' in plan['kinds'] and 'W' in plan['allow'] and rng.random() < (0.6 if pid in ('C09', 'C02') else 0.35):
             # widening stress: start with width 1 on a dense graph and widen step by step
             inst, cf = rand_instance(rng, maxn=6, maxT=6, allow=tuple(a for a in plan['allow'] if a != 'cuts'))
+            while inst.T < 4:
+                inst, cf = rand_instance(rng, maxn=6, maxT=6, allow=tuple(a for a in plan['allow'] if a != 'cuts'))
             cf['W'] = 1
-            ops = [('match', inst.T)] + [('widen', w) for w in rng.choice([[2, 3, 5], [2, 4], [3], [2, 3, 4, 6]])]
+            ops = [('match', inst.T)] + [('widen', w) for w in rng.choice([[2, 3, 5], [2, 4], [2, 3], [2, 3, 4, 6]])]
         cf['labels'] = rng.choice(['id', 'zero', 'z2', 'z3', 'str', 'neg'] if pid != 'C01' else ['zero', 'z2', 'z3', 'zero', 'z2', 'z3', 'id', 'str'])
         if pid in ('C09', 'C03', 'C04', 'C05') and rng.random() < 0.3:
             cf['debug'] = True      # package logger at DEBUG: stopped candidates are materialised in the lattice
